@@ -638,8 +638,26 @@ pub const RAW_SIZES: [usize; 4] = [300, 9_000, 70_000, 150_000];
 /// sender has been pending three times in a row, then everything)
 pub const RAW_DRAINS: [usize; 4] = [0, 4096, 65_536, usize::MAX];
 
-fn raw_wire_with<R: Rt>(sizes: &[usize], drain: usize, small: bool, abandon: Option<(usize, usize)>, chains: bool) -> Result<u64, (String, String)> {
+/// The oneway method of a generated proxy that `raw_wire_with` sends its messages with when `how`
+/// is 2 (what must reach the wire is then the call the proxy rule describes for it).
+#[zlink_core::proxy(interface = "p", crate = "zlink_core")]
+pub trait PayProxy {
+    #[zlink(oneway)]
+    async fn store(&mut self, x: &str) -> zlink_core::Result<()>;
+}
+
+#[derive(Debug, Serialize)]
+#[serde(tag = "method", content = "parameters")]
+enum PayMeth<'a> {
+    #[serde(rename = "p.Store")]
+    Store { x: &'a str },
+}
+
+/// `how`: 0 = every message through send_call, 1 = as a chain of its own, 2 = through the generated
+/// proxy method `store`.
+fn raw_wire_with<R: Rt>(sizes: &[usize], drain: usize, small: bool, abandon: Option<(usize, usize)>, how: u8) -> Result<u64, (String, String)> {
     use std::io::Read;
+    let chains = how == 1;
     let rt = R::new();
     let (sa, mut peer) = small_pair(small);
     let mut conn: Connection<R::Sock> = Connection::new(rt.wrap(sa));
@@ -647,7 +665,11 @@ fn raw_wire_with<R: Rt>(sizes: &[usize], drain: usize, small: bool, abandon: Opt
     let msgs: Vec<Call<Pay>> = sizes.iter().enumerate().map(|(i, s)| odd_message(i, *s)).collect();
     let mut expect = Vec::new();
     for m in &msgs {
-        expect.extend_from_slice(&serde_json::to_vec(m).unwrap());
+        if how == 2 {
+            expect.extend_from_slice(&serde_json::to_vec(&Call::new(PayMeth::Store { x: &m.method().x }).set_oneway(true)).unwrap());
+        } else {
+            expect.extend_from_slice(&serde_json::to_vec(m).unwrap());
+        }
         expect.push(0);
     }
     let mut got: Vec<u8> = Vec::new();
@@ -668,7 +690,7 @@ fn raw_wire_with<R: Rt>(sizes: &[usize], drain: usize, small: bool, abandon: Opt
     };
     let describe = |got: &Vec<u8>| {
         let at = got.iter().zip(expect.iter()).position(|(a, b)| a != b).unwrap_or(got.len().min(expect.len()));
-        format!("message sizes {sizes:?}{}, peer takes {} bytes per pending poll, {} socket buffers: the peer read {} bytes, serde_json's encodings + NULs are {} bytes, first difference at offset {at}", abandon.map(|(m, k)| format!("{}, the send of message #{m} abandoned at its pending poll #{k} (what it had not written yet goes out with the next send / the final flush)", if chains { ", each sent as a chain of its own" } else { "" })).unwrap_or_default(), if drain == usize::MAX { "all".to_string() } else { drain.to_string() }, if small { "smallest" } else { "default" }, got.len(), expect.len())
+        format!("message sizes {sizes:?}{}, peer takes {} bytes per pending poll, {} socket buffers: the peer read {} bytes, serde_json's encodings + NULs are {} bytes, first difference at offset {at}", abandon.map(|(m, k)| format!("{}, the send of message #{m} abandoned at its pending poll #{k} (what it had not written yet goes out with the next send / the final flush)", if chains { ", each sent as a chain of its own" } else if how == 2 { ", each sent with a generated proxy method" } else { "" })).unwrap_or_default(), if drain == usize::MAX { "all".to_string() } else { drain.to_string() }, if small { "smallest" } else { "default" }, got.len(), expect.len())
     };
     for (k, m) in msgs.iter().enumerate() {
         let mp = m as *const Call<Pay>;
@@ -679,6 +701,8 @@ fn raw_wire_with<R: Rt>(sizes: &[usize], drain: usize, small: bool, abandon: Opt
                 let chain = unsafe { (*cp).chain_call::<Pay, serde_json::Value, serde_json::Value>(&*mp) }?;
                 chain.send().await.map(|_| ())
             })
+        } else if how == 2 {
+            Box::pin(async move { unsafe { (*cp).store(&(*mp).method().x) }.await })
         } else {
             Box::pin(unsafe { (*cp).send_call(&*mp) })
         };
@@ -738,15 +762,15 @@ fn raw_wire_with<R: Rt>(sizes: &[usize], drain: usize, small: bool, abandon: Opt
     Ok(got.len() as u64)
 }
 
-pub fn raw_wire_case(rt: RtKind, sizes: &[usize], drain: usize, small: bool, abandon: Option<(usize, usize)>, chains: bool) -> Result<u64, (String, String)> {
+pub fn raw_wire_case(rt: RtKind, sizes: &[usize], drain: usize, small: bool, abandon: Option<(usize, usize)>, how: u8) -> Result<u64, (String, String)> {
     match rt {
-        RtKind::Tokio => raw_wire_with::<TokioRt>(sizes, drain, small, abandon, chains),
-        RtKind::Smol => raw_wire_with::<SmolRt>(sizes, drain, small, abandon, chains),
+        RtKind::Tokio => raw_wire_with::<TokioRt>(sizes, drain, small, abandon, how),
+        RtKind::Smol => raw_wire_with::<SmolRt>(sizes, drain, small, abandon, how),
     }
 }
 
 /// Cases with one abandoned send: (runtime, sizes, drain, small buffers, (message, pending poll)).
-pub fn raw_wire_abandon_cases(thorough: bool) -> Vec<(RtKind, Vec<usize>, usize, bool, (usize, usize), bool)> {
+pub fn raw_wire_abandon_cases(thorough: bool) -> Vec<(RtKind, Vec<usize>, usize, bool, (usize, usize), u8)> {
     let seqs: Vec<Vec<usize>> = if thorough {
         vec![vec![70_000, 300], vec![150_000, 300], vec![150_000, 70_000], vec![300, 150_000, 300], vec![70_000, 70_000, 300], vec![150_000, 300, 9_000]]
     } else {
@@ -759,8 +783,8 @@ pub fn raw_wire_abandon_cases(thorough: bool) -> Vec<(RtKind, Vec<usize>, usize,
                 for small in [true, false] {
                     for m in 0..s.len() {
                         for k in [1usize, 2, 4] {
-                            for chains in [false, true] {
-                                v.push((rt, s.clone(), d, small, (m, k), chains));
+                            for how in [0u8, 1, 2] {
+                                v.push((rt, s.clone(), d, small, (m, k), how));
                             }
                         }
                     }
